@@ -25,7 +25,7 @@ RelayError(c) ==
   /\ alloc' = [alloc EXCEPT ![c] = NoAlloc]
   /\ perm'  = [perm EXCEPT ![c] = NoPerms]
   /\ chan'  = [chan EXCEPT ![c] = NoChans]
-  /\ UNCHANGED resv
+  /\ UNCHANGED <<resv, veto>>
   /\ out' = {}
 
 ServerClose ==
@@ -35,6 +35,7 @@ ServerClose ==
   /\ perm'  = [c \in Clients |-> NoPerms]
   /\ chan'  = [c \in Clients |-> NoChans]
   /\ resv'  = [c \in Clients |-> 0]
+  /\ UNCHANGED veto
   /\ out' = {}
 
 LifeNext == (~Down /\ Next) \/ (\E c \in Clients : RelayError(c)) \/ ServerClose
